@@ -152,6 +152,19 @@ func vpParseSigned(s string, algs []jose.SignatureAlgorithm) (*jwt.JSONWebToken,
 	for _, a := range algs {
 		vpSigAlgs = append(vpSigAlgs, string(a))
 	}
+	if vpMintedToken {
+		// the token GeneratePAAToken just produced: a compact JWS under the signer's algorithm and key
+		if !vpContains(vpSigAlgs, vpMintedAlg) {
+			return nil, errors.New("vp: unexpected signature algorithm")
+		}
+		vpTokAlgs = []string{vpMintedAlg}
+		vpTokKind = 1
+		vpTokSignedBy = vpKeyForeign
+		if vpMintedKeyIs {
+			vpTokSignedBy = vpKeyPAASign
+		}
+		return &jwt.JSONWebToken{Headers: []jose.Header{{Algorithm: vpMintedAlg}}}, nil
+	}
 	if vpIdpPerCall {
 		// history harness: a correctly signed, unexpired gateway cookie
 		vpPresentation = vpNowCalls
@@ -339,6 +352,9 @@ func vpUserInfo(p *oidc.Provider, ctx context.Context, ts oauth2.TokenSource) (*
 }
 
 var (
+	vpMintedToken  bool
+	vpMintedAlg    string
+	vpMintedKeyIs  bool
 	vpIdpPerCall   bool
 	vpIdpAsked     [2]bool
 	vpPresentation int
